@@ -698,8 +698,15 @@ class CSSSerializer:
     def do_CSSPageRuleSelector(self, seq):
         "Serialize selector of a CSSPageRule"
         out = Out(self)
-        for item in seq:
+        idents = [
+            i for i, item in enumerate(seq) if item.type in ('IDENT', 'pseudo')
+        ]
+        for i, item in enumerate(seq):
             if item.type == 'IDENT':
+                out.append(item.value, item.type, space=False)
+            elif len(idents) == 2 and idents[0] < i < idents[1]:
+                # between a page name and its pseudo page: the parser allows
+                # no white space in front of the pseudo page
                 out.append(item.value, item.type, space=False)
             else:
                 out.append(item.value, item.type)
